@@ -996,6 +996,22 @@ pub fn exec(s: &Script, st: &mut Stats) -> Result<RunInfo, Violation> {
                     }
                     st.add("probe.sweep_cut_budget_grid", ((n + 1) * (total / step + 1)) as u64);
                 }
+                8 => {
+                    // a window of one-byte deliveries somewhere inside a larger stream: everything before the window
+                    // in one call, then `sweep_window` calls of one byte each, then the rest
+                    let n = m.len();
+                    let w0 = (s.c("sweep_from").max(0) as usize).min(n);
+                    let wl = (s.c_or("sweep_window", 2000).max(1) as usize).min(n - w0);
+                    let mut ops: Vec<Vec<i64>> = Vec::with_capacity(wl + 2);
+                    ops.push(vec![w0 as i64, -1]);
+                    for _ in 0..wl {
+                        ops.push(vec![1, -1]);
+                    }
+                    ops.push(vec![(n - w0 - wl) as i64, -1]);
+                    let r = run_family(&ops, st)?;
+                    compare(base.as_ref().unwrap(), &r, format!("one-byte feeding of input bytes [{}, {})", w0, w0 + wl))?;
+                    runs.push(r);
+                }
                 5 => {
                     // constant per-call budget b for all calls
                     let b = s.c_or("sweep_budget", 1).max(1);
